@@ -1,0 +1,5 @@
+//go:build !verif
+
+package bttest
+
+func verifPoint(string, ...interface{}) {}
